@@ -187,6 +187,17 @@ func TestCheck(t *testing.T) {
 			}
 		}
 	}
+	// a column whose name holds a quote character becomes a serial one: its name is part of the sequence name, which the plan
+	// writes as an identifier and, inside nextval('...'), as a string
+	for _, hs := range []string{"it's", "semi;colon", "dash -- dash", "back\\slash"} {
+		for fi, f := range formatters {
+			c := Case{Dialect: "postgres", Scenario: "modify", Edits: []c02.EditRef{{Kind: "modify-type", Table: "users", Obj: "c" + hs, Arg: "serial"}},
+				Injects: []Inject{{Site: "column-name", S: hs}}, Indent: []string{"", "  "}[fi%2], Formatter: f}
+			if !ev.Each(col, "serial-over-hostile-column-name", c, check, known) {
+				return
+			}
+		}
+	}
 	if !ev.Rapid(t, col, "literals", col.N(5000, 500000), genCase(false), check, known) {
 		return
 	}
